@@ -33,6 +33,10 @@ type freshSpec struct {
 	// two persisting callees in sequence where the second is only reached if the first did
 	// not change the record (triaged by reading).
 	Tolerated map[string]string
+	// Sinks: additional consumers of the record ("function key" → parameter indexes incl.
+	// receiver) that decide something from it (a third-party close, a health verdict): the
+	// record handed to them must be as fresh as one that is persisted.
+	Sinks map[string][]int
 }
 
 type paramRef struct {
@@ -89,6 +93,17 @@ func checkRecordFreshness(P *core.Program, R *core.Report, spec freshSpec) {
 		return
 	}
 	marked := persistsParams(P, spec.Store)
+	for k, idxs := range spec.Sinks {
+		f := P.Fn(k)
+		if f == nil {
+			R.Add(spec.Rule, k, "deciding consumer", "-", false, "unresolved anchor")
+			continue
+		}
+		for _, i := range idxs {
+			marked[paramRef{f, i}] = true
+		}
+	}
+	recType := P.Fn(spec.Load).Signature.Results().At(0).Type()
 	mayStore := P.Summary("mayCall:"+spec.Store, func(fn *ssa.Function) bool { return fn == storeFn })
 	// loader wrappers: functions whose first result is the loader's record (k.GetAmmPool → amm.GetPool)
 	loaders := map[*ssa.Function]bool{P.Fn(spec.Load): true}
@@ -152,6 +167,40 @@ func checkRecordFreshness(P *core.Program, R *core.Report, spec freshSpec) {
 		}
 		ff := P.Facts(fn)
 		calls := core.Calls(fn)
+		// a by-value record parameter re-bound to a freshly loaded record: from there on this
+		// function works on (and persists) a record its caller does not have — the caller's copy,
+		// which shared the parameter's backing arrays, silently goes stale and is written back later
+		for _, prm := range fn.Params {
+			if !types.Identical(prm.Type(), recType) || prm.Referrers() == nil {
+				continue
+			}
+			for _, r := range *prm.Referrers() {
+				st, ok := r.(*ssa.Store)
+				if !ok || st.Val != ssa.Value(prm) {
+					continue
+				}
+				spill, ok := st.Addr.(*ssa.Alloc)
+				if !ok || spill.Referrers() == nil {
+					continue
+				}
+				for _, r2 := range *spill.Referrers() {
+					st2, ok := r2.(*ssa.Store)
+					if !ok || st2.Addr != ssa.Value(spill) || st2 == st {
+						continue
+					}
+					reloaded := false
+					for _, o := range ff.Origins(st2.Val) {
+						if c, ok := o.Val.(*ssa.Call); ok && o.Kind == "call" && isLoaderCall(c) {
+							reloaded = true
+						}
+					}
+					if reloaded {
+						R.Add(spec.Rule, key, "record parameter "+prm.Name()+" re-bound to a reload", P.Pos(P.InstrPos(st2)), false,
+							"a record received by value is replaced by a freshly loaded one: what this function then changes and stores is no longer what its caller holds, and the caller's later write-back discards it")
+					}
+				}
+			}
+		}
 		for _, use := range calls {
 			cc := use.Common()
 			for ai, a := range cc.Args {
@@ -177,7 +226,16 @@ func checkRecordFreshness(P *core.Program, R *core.Report, spec freshSpec) {
 					case o.Kind == "call":
 						ld, _ := o.Val.(*ssa.Call)
 						if ld == nil || !isLoaderCall(ld) {
-							continue // constructed / returned by another function
+							// constructed / returned by another function — unless that function hands
+							// out a copy it keeps in a map, a captured variable or a global (a cache)
+							if ld != nil {
+								for _, t := range P.Callees(ld) {
+									if src := returnsCachedRecord(P, t, recType); src != "" {
+										bad = "the record is returned by " + P.Key(t) + ", which hands out a cached copy (" + src + ") instead of loading it"
+									}
+								}
+							}
+							continue
 						}
 						// loop: use → use without reloading
 						if _, again := core.ReachesWithout(fn, use, func(in ssa.Instruction) bool { return in == ssa.Instruction(use) },
@@ -199,7 +257,7 @@ func checkRecordFreshness(P *core.Program, R *core.Report, spec freshSpec) {
 							// does mid receive this same snapshot (alias / copy)? then it is a sibling use
 							sibling := false
 							for _, ma := range mid.Common().Args {
-								for _, mo := range ff.Origins(ma) {
+								for _, mo := range recordOrigins(ff, ma) {
 									if mo.Val == o.Val {
 										sibling = true
 									}
@@ -215,6 +273,11 @@ func checkRecordFreshness(P *core.Program, R *core.Report, spec freshSpec) {
 							}
 						}
 					default:
+						// a variable captured by a function literal is the enclosing function's variable:
+						// judged by what the enclosing function stores into it
+						if fv, isFV := o.Val.(*ssa.FreeVar); isFV && capturedFromLoader(P, fn, fv, isLoaderCall) {
+							continue
+						}
 						bad = "the record comes from a cached copy (" + o.String() + "), not from the loader, a parameter or a constructor"
 					}
 				}
@@ -267,4 +330,91 @@ func recordOrigins(ff *core.FuncFacts, a ssa.Value) []core.Origin {
 		out = append(out, o)
 	}
 	return out
+}
+
+// returnsCachedRecord: fn returns a record of type rec (or a pointer to one) that, on some
+// non-error return, originates from a map element, a captured variable or a package-level
+// variable — a memoised copy.  Returns a description of the source, or "".
+func returnsCachedRecord(P *core.Program, fn *ssa.Function, rec types.Type) string {
+	if fn == nil || len(fn.Blocks) == 0 || fn.Signature.Results().Len() == 0 {
+		return ""
+	}
+	rt := fn.Signature.Results().At(0).Type()
+	if pt, ok := rt.Underlying().(*types.Pointer); ok {
+		rt = pt.Elem()
+	}
+	bt := rec
+	if pt, ok := bt.Underlying().(*types.Pointer); ok {
+		bt = pt.Elem()
+	}
+	if !types.Identical(rt, bt) {
+		return ""
+	}
+	ff := P.Facts(fn)
+	for _, ex := range ff.Exits() {
+		ret, ok := ex.Instr.(*ssa.Return)
+		if !ok || ex.Kind == core.ExitError || len(ret.Results) == 0 {
+			continue
+		}
+		for _, o := range recordOrigins(ff, ret.Results[0]) {
+			switch {
+			case o.Kind == "freevar", o.Kind == "global":
+				return o.String()
+			case strings.Contains(o.Path, "[]") && o.Kind != "call" && o.Kind != "param":
+				return o.String()
+			}
+			if lk, ok := o.Val.(*ssa.Lookup); ok {
+				return "map element " + lk.X.Name()
+			}
+		}
+	}
+	return ""
+}
+
+// capturedFromLoader: fv is a free variable of the function literal fn; in the enclosing
+// function the captured variable is a local that only ever receives loader results,
+// parameters or other call results (it is not itself a cache: a map, a global, a field).
+func capturedFromLoader(P *core.Program, fn *ssa.Function, fv *ssa.FreeVar, isLoader func(*ssa.Call) bool) bool {
+	parent := fn.Parent()
+	if parent == nil {
+		return false
+	}
+	idx := -1
+	for i, f := range fn.FreeVars {
+		if f == fv {
+			idx = i
+		}
+	}
+	if idx < 0 {
+		return false
+	}
+	pf := P.Facts(parent)
+	found := false
+	for _, b := range parent.Blocks {
+		for _, in := range b.Instrs {
+			mc, ok := in.(*ssa.MakeClosure)
+			if !ok || mc.Fn != ssa.Value(fn) || idx >= len(mc.Bindings) {
+				continue
+			}
+			al, ok := mc.Bindings[idx].(*ssa.Alloc)
+			if !ok || al.Referrers() == nil {
+				return false
+			}
+			for _, r := range *al.Referrers() {
+				st, ok := r.(*ssa.Store)
+				if !ok || st.Addr != ssa.Value(al) {
+					continue
+				}
+				for _, o := range pf.Origins(st.Val) {
+					switch o.Kind {
+					case "param", "call", "zero", "const":
+						found = true
+					default:
+						return false
+					}
+				}
+			}
+		}
+	}
+	return found
 }
